@@ -165,6 +165,27 @@ def run(rep, tier, rng):
                         if r[1].vocab is not tgt:
                             rep.violation(f"{nm}: the translated pointer is not a pointer of the target vocabulary", {"case": base})
 
+            # ---- translate on a module output (dynamic node): the pending transform is the same matrix -------
+            if o[0] == "ok" and populate is not True and not use_solver:
+                import nengo
+                from nengo_spa.connectors import as_ast_node
+                with warnings.catch_warnings():
+                    warnings.simplefilter("ignore")
+                    with spa.Network():
+                        td = c.outcome(lambda: as_ast_node(spa.State(src, subdimensions=1)).translate(tgt, populate=populate, keys=requested))
+                        tf = c.outcome(lambda: spa.translate(spa.State(src, subdimensions=1), tgt, populate=populate, keys=requested))
+                for nm, r in (("translate-dynamic-node", td), ("translate-module", tf)):
+                    rep.case((nm, repr(base)))
+                    rep.count(nm)
+                    if r[0] != "ok":
+                        rep.violation(f"{nm} raised {r[0]} where transform_to succeeded", {"case": base, "observed": list(r[:2])})
+                    elif not (np.shape(r[1].transform) == np.shape(o[1]) and np.allclose(r[1].transform, o[1])):
+                        rep.violation(f"{nm}(keys={requested}, populate={populate}) does not use the matrix of transform_to with the same arguments",
+                                      {"case": base, "observed": np.asarray(r[1].transform).tolist(), "expected_matrix": np.asarray(o[1]).tolist(),
+                                       "python": "assert False, 'dynamic translate ignores an argument of transform_to'\n"})
+                    elif getattr(getattr(r[1], "type", None), "vocab", None) is not tgt:
+                        rep.violation(f"{nm}: the result is not typed with the target vocabulary", {"case": base})
+
     # ---------------- reinterpret / create_subset ---------------------------------------------
     for al in algs.ALGS:
         A = algs.alg_obj(al)
